@@ -16,6 +16,15 @@ Definition lock_rank (l : string) : nat :=
 Definition edges_ranked (es : list (string * string)) : bool :=
   forallb (fun e => Nat.ltb (lock_rank (fst e)) (lock_rank (snd e))) es.
 
+(** accesses to lock-protected fields outside the lock that are part of the
+    design: constructors, and connect() before the stream thread exists *)
+Definition allowed_unguarded : list string :=
+  ["CommHandler.__init__:_channels"; "Device.__init__:_channels";
+   "NxscopeHandler.__init__:_sub_q"; "NxscopeHandler.connect:_sub_q"].
+
+Definition all_guarded (l : list string) : bool :=
+  forallb (fun x => existsb (String.eqb x) allowed_unguarded) l.
+
 (** threads as (locks held, lock waited for), by rank *)
 Record thr := mkThr { holds : list nat; waits : option nat }.
 
